@@ -42,6 +42,22 @@ static Json::Value gen() {
   if (P(35))
     for (auto& cg : sc["world"]["cgs"])
       if (!cg["path"].asString().empty() && P(25)) cg["faults"]["memory.pressure"] = oneOf(std::vector<std::string>{"absent", "unreadable", "empty"});
+  // a second detector group per ruleset: the kill record names the group that fired the chain, which need
+  // not be the one firing when a suspended kill is completed
+  if (P(40)) {
+    int nt = (int)sc["ticks"].size();
+    for (Json::ArrayIndex i = 0; i < sc["config"]["rulesets"].size(); i++) {
+      Json::Value det(Json::objectValue);
+      det["name"] = "vp_detector";
+      det["args"]["id"] = "x" + std::to_string(i);
+      Json::Value dg(Json::arrayValue);
+      dg.append("dgx" + std::to_string(i));
+      dg.append(det);
+      sc["config"]["rulesets"][i]["detectors"].append(dg);
+      for (int t = 0; t < nt; t++) sc["scripts"]["detectors"]["x" + std::to_string(i)].append(P(50) ? "C" : "S");
+    }
+    sc["meta"]["two_groups"] = true;
+  }
   // repeated kills: short ruleset delays; pre-existing counters; silence-logs
   for (auto& rs : sc["config"]["rulesets"]) {
     if (P(70)) rs["post_action_delay"] = "0";
@@ -83,6 +99,7 @@ static Verdict run(const Json::Value& sc) {
   int expectedKills = 0;
   std::map<int, int> lastRun; // ruleset -> last tick its kill plugin ran
   std::map<int, bool> expectResume;
+  std::map<int, std::string> chainDg; // ruleset -> detector group that fired the current chain
   std::map<int, bool> resumeDue; // ruleset -> its kill action answered ASYNC_PAUSED (hook) last tick
   std::map<int, bool> hookOutstanding; // ruleset -> a prekill hook invocation object is alive
   std::map<uint64_t, int> attemptsPerCgroup;
@@ -111,6 +128,12 @@ static Verdict run(const Json::Value& sc) {
       break;
     }
     resumeDue[inv.rs] = false;
+    // the group that fired this chain: decided at the tick the chain started (its first action ran)
+    if (inv.pre_ran) {
+      const Json::Value& ds = sc["scripts"]["detectors"]["d" + std::to_string(inv.rs)];
+      bool first = ds.isArray() ? (inv.tick < (int)ds.size() && ds[inv.tick].asString() != "S") : ds.asString() != "S";
+      chainDg[inv.rs] = (first ? "dg" : "dgx") + std::to_string(inv.rs);
+    }
     bool ran = inv.pre_ran || expectResume[inv.rs] || !inv.attempts.empty() || sawHook;
     bool resumed = expectResume[inv.rs];
     expectResume[inv.rs] = false;
@@ -185,7 +208,7 @@ static Verdict run(const Json::Value& sc) {
     for (auto& l : klines) {
       std::string victim = inv.attempts.empty() ? "" : inv.attempts.back().victim;
       std::string rsn = "ruleset:[rs" + std::to_string(inv.rs) + "]";
-      std::string dgn = "detectorgroup:[dg" + std::to_string(inv.rs) + "]";
+      std::string dgn = "detectorgroup:[" + (chainDg.count(inv.rs) ? chainDg[inv.rs] : "dg" + std::to_string(inv.rs)) + "]";
       std::string killer = std::string("killer:") + (dry ? "(dry)" : "") + plugin;
       if (l.find(rsn) == std::string::npos) v.fail("kill record lacks " + rsn + ": " + l + where);
       if (l.find(dgn) == std::string::npos) v.fail("kill record lacks " + dgn + ": " + l + where);
